@@ -39,6 +39,7 @@ def run(tier):
           for i in range(n)]
     hs += [histgen.add_external_block_ops(rng, histgen.gen_history(rng, nops=30, comp="none", sizes=[1, 2, 3], rot=False), p=0.5)
            for _ in range(n // 3)]
+    hs += histgen.aec_flush_family(rng)
     m2 = run_histories(chk, hs, {"C12"}, label="c12r", sample=False)
     m3 = run_many_blocks(chk, {"C12"}, ns=(65536, 65537))
     # the counters also match when the output fails: a call that ends with an exception wrote no block (fault sweep on
